@@ -52,7 +52,7 @@ pub const RULES: &[&str] = &[
     "reply-dup-success", "reply-dup-error", "reply-always-plus-success", "reply-always-plus-error", "reply-dup-always",
     "reply-payload-arity", "reply-payload-type",
     "data-not-first", "data-on-error", "data-on-always", "data-raw-instantiate",
-    "param-after-raw-payload", "param-between-data-and-raw-payload", "missing-payload",
+    "param-after-raw-payload", "param-between-data-and-raw-payload", "missing-payload", "missing-payload-data-only",
     "payload-without-args", "payload-unknown-arg",
     "unknown-msg-arg", "unknown-msg-kind", "unknown-reply-on", "unknown-data-arg", "unknown-feature", "unknown-custom-arg",
     "unknown-messages-custom-flag", "unknown-msg-attr-kind", "unknown-override-kind", "messages-trailing-tokens",
@@ -115,7 +115,7 @@ pub fn make_invalid(rule: &str, tape: Vec<u32>) -> Option<Invalid> {
             };
             inv("interface", "", item, "", valid)
         }
-        r if r.starts_with("reply-") || r.starts_with("data-") || r.starts_with("param-") || r == "missing-payload" || r.starts_with("payload-") || r == "unknown-reply-on" || r == "unknown-data-arg" => {
+        r if r.starts_with("reply-") || r.starts_with("data-") || r.starts_with("param-") || r == "missing-payload" || r == "missing-payload-data-only" || r.starts_with("payload-") || r == "unknown-reply-on" || r == "unknown-data-arg" => {
             // the second payload parameter's type is drawn; for the type-mismatch rule the two
             // methods get a pair of different types, including pairs that differ only inside
             // generic arguments
@@ -150,6 +150,13 @@ pub fn make_invalid(rule: &str, tape: Vec<u32>) -> Option<Invalid> {
                 "param-after-raw-payload" => b.replacen("#[sv::payload(raw)] payload: Binary", "#[sv::payload(raw)] payload: Binary, extra: u32", 1),
                 "param-between-data-and-raw-payload" => b.replacen("result: SubMsgResult, #[sv::payload(raw)] payload: Binary", "result: SubMsgResult, extra: u32, #[sv::payload(raw)] payload: Binary", 1),
                 "missing-payload" => b.replacen("result: SubMsgResult, #[sv::payload(raw)] payload: Binary", "result: SubMsgResult", 1),
+                // a success handler whose only parameter is the data one (its error twin removed)
+                "missing-payload-data-only" => {
+                    let x = b.replacen(&format!("data: Option<u32>, p1: u32, p2: {ty2}"), "data: Option<u32>", 1);
+                    let start = x.find("    #[sv::msg(reply, handlers=[on_a], reply_on=error)]").unwrap_or(0);
+                    let end = x.find("    #[sv::msg(reply, handlers=[on_b])]").unwrap_or(start);
+                    format!("{}{}", &x[..start], &x[end..])
+                }
                 "payload-without-args" => b.replacen("#[sv::payload(raw)]", "#[sv::payload]", 1),
                 "payload-unknown-arg" => b.replacen("#[sv::payload(raw)]", "#[sv::payload(bytes)]", 1),
                 "unknown-reply-on" => b.replacen("reply_on=error", "reply_on=failure", 1),
